@@ -17,11 +17,11 @@ CHECKS = {
     "C03": dict(text="Pos(f,i) = first element moved up by i*stride, OOB action = panic + UNCHANGED; arrays of 8 element kinds x K x stride x lo on 8 bases plus seeded arrays: every index and out-of-range indices on getter/with_/set_ recorded and validated.", technique=TV + SYM, ref="6/C03"),
     "C04": dict(text="Pos concatenates ranges in declaration order; ReadBack needs Inj(Pos) (the property's exclusion); fixed families (bit reversal, byte swap, RISC-V immediates, interleaving arrays) plus seeded lists recorded and validated; exhaustive 8-bit tables.", technique=TV + SYM, ref="6/C04"),
     "C05": dict(text="Signed fields are bit patterns in the spec; two's-complement decimal checked for N<=16; Frame forbids sign leakage: every iN field of all corpora written with negative/extreme patterns, neighbours observed through raw_value() and the storage integer.", technique=TV + SYM, ref="6/C05"),
-    "C06": dict(text="New/Raw/Zero/Default actions; all 128 base widths with and without defaults (literal/constant, =/:), ZERO, DEFAULT, Default::default(), new(), layout events (size/align vs native integer), Copy.", technique=TV, ref="6/C06"),
+    "C06": dict(text="New/Raw/Zero/Default actions; all 128 base widths with and without defaults (literal/constant, =/:), ZERO, DEFAULT, Default::default(), new(), layout events (size/align vs native integer), Copy; the recorded new_with_raw_value/raw_value/ZERO/DEFAULT bodies are decided for ALL raw values symbolically (Sym.tla).", technique=TV + SYM, ref="6/C06"),
     "C08": dict(text="Present(enum|optenum|nested) = the type's own raw conversion applied to Read; enum/Option<enum>/nested fields of 14 widths at 3 placements, scalar/array/non-contiguous, every variant and non-variant patterns (through aliasing unsigned siblings).", technique=TV + SYM, ref="6/C08"),
-    "C11": dict(text="UpperBitsZero is an invariant of the spec and is evaluated after every recorded event on the raw value AND on the storage integer (transmute); Rewrap action: new_with_raw_value(x.raw_value()) must be indistinguishable through every getter; all arbitrary-int bases of all corpora, random histories.", technique=TV + SYM, ref="6/C11"),
-    "C12": dict(text="LastWriteWins (shadow register updated bit by bit) and DisjointCommute checked exhaustively by TLC on model declarations with overlapping fields (two slots); random histories on overlapping seeded layouts validated step by step with the shadow register.", technique=TV, ref="6/C12"),
-    "C13": dict(text="Builder.tla type-state machine (BuildIsFold, DefaultKept, ArgsReadBack checked by TLC); build events of the real builder on Q-bld and seeded valid layouts validated against BuilderOps!BuildFold.", technique=TV, ref="6/C13"),
+    "C11": dict(text="UpperBitsZero is an invariant of the spec and is evaluated after every recorded event on the raw value AND on the storage integer (transmute); Rewrap action: new_with_raw_value(x.raw_value()) must be indistinguishable through every getter; all arbitrary-int bases of all corpora, random histories; TLC-simulated behaviours replayed on the real objects; layouts and defaults reaching above bit N-1 must be rejected; recorded setter bodies and the raw round trip decided for all inputs (inductive step).", technique=TV + SYM + "; spec->impl behaviour replay", ref="6/C11"),
+    "C12": dict(text="LastWriteWins (shadow register updated bit by bit) and DisjointCommute checked exhaustively by TLC on model declarations with overlapping fields (two slots); random histories on overlapping seeded layouts validated step by step with the shadow register; TLC-simulated behaviours replayed on the real objects with state comparison after every step; TLAPS lemmas LastWriteWinsStep, DisjointCommute.", technique=TV + "; spec->impl behaviour replay; TLAPS lemmas", ref="6/C12"),
+    "C13": dict(text="Builder.tla type-state machine (BuildIsFold, DefaultKept, ArgsReadBack checked by TLC); build events of the real builder on Q-bld and seeded valid layouts validated against BuilderOps!BuildFold; the recorded builder chain of every layout is evaluated symbolically (interprocedurally) for ALL argument tuples.", technique=TV + SYM, ref="6/C13"),
     "C16": dict(text="Register.tla is deterministic and the only panic is OOB; the same drivers are executed under dev (opt 0, overflow checks, debug assertions) and release (opt 3, none); both traces validated and digests compared.", technique=TV + "; two build profiles" + SYM, ref="6/C16"),
     "C07": dict(text="BitEnum.tla FromRaw/ToRaw with EnumInverse/ExhaustiveTotal/ErrCarriesRaw checked by TLC on every enumerated enum declaration; recorded new_with_raw_value over ALL raw values (N<=16) and raw_value() of every variant of every accepted enum of the EnumGen space plus seeded sets for every N in 1..64, validated by TLC (EnumTrace.tla).", technique="TLA+ spec + TLC enumeration of enum declarations; trace validation of recorded conversions", ref="6/C07"),
     "C09": dict(text="Decl!Valid (three-valued Verdict) is the documented rule; TLC enumerates the single-field declaration space exhaustively on small bases (DeclSpace.tla) plus boundary families and seeded near-miss mutations; rustc + the real macro (dev-built and release-built) judge each; verdict events validated by TLC (VerdictTrace.tla), rejections must be located at the declaration.", technique="TLA+ rule + TLC-enumerated programs compiled by the real macro; verdict validation by TLC", ref="6/C09"),
